@@ -19,6 +19,7 @@ Reading guide
 -/
 import OdmlModel.Model.Rdf
 import OdmlModel.Proofs.Rdf
+import OdmlModel.Proofs.RdfSubclass
 import OdmlModel.Generated.FormatTables
 import OdmlModel.Generated.MiscTables
 
@@ -149,6 +150,42 @@ theorem export_section_typed (cfg : Cfg) (ds : List DocT) (s : SecT) (hs : s ∈
     | some sub =>
       simp only [hss] at hsub
       exact .inr ⟨sub, rfl, rfl, hsub _ (by simp), hsub _ (by simp), hsub _ (by simp), hsub _ (by simp)⟩
+
+/-- `RDFWriter.__init__` keeps the switch it was given, whatever custom map comes with it (the
+    custom map only changes the dictionary). -/
+theorem writer_keeps_switch (b : Bool) (dflt custom : List (Str × Str)) (cfg : Cfg)
+    (h : mkCfg b dflt custom = some cfg) : cfg.subclassing = b := by
+  unfold mkCfg at h
+  split at h
+  · cases h; rfl
+  · cases hp : parseCustomSubclasses dflt custom with
+    | none => simp [hp] at h
+    | some d => simp [hp] at h; subst h; rfl
+
+/-- **Sub-classing switched off** (the configuration `off` and `off + custom map` of the
+    quantifier; `cfg` is the configuration at the time of the export, so a writer whose switch was
+    turned off after it was created is included): whatever sub-class map the writer holds — the
+    default map, a custom map, both merged — the exported graph is the one of a writer without
+    any map, no triple declares a sub-class (`rdfs:subClassOf`), and every Section node is typed
+    `odml:Section`. -/
+theorem export_subclassing_off (cfg : Cfg) (hc : cfg.subclassing = false) (ds : List DocT) :
+    exportRdf cfg ds = exportRdf ⟨false, []⟩ ds ∧
+    (∀ t ∈ exportRdf cfg ds, t.p ≠ rdfsSubClassOf) ∧
+    (∀ s ∈ docSecs ds,
+      ⟨node s.id, rdfType, .iri Gen.Format.sectionRdfType.toList⟩ ∈ exportRdf cfg ds) := by
+  obtain ⟨b, m⟩ := cfg
+  simp only at hc
+  subst hc
+  exact ⟨exportRdf_off m [] ds,
+    fun t ht => export_off_noDecl rdf_tables_wellformed m ds ht,
+    fun s hs => export_off_plain rdf_tables_wellformed m ds s hs⟩
+
+/-- … in particular for a writer created with `rdf_subclassing=False` and any custom map. -/
+theorem export_off_with_custom_map (dflt custom : List (Str × Str)) (cfg : Cfg)
+    (h : mkCfg false dflt custom = some cfg) (ds : List DocT) :
+    exportRdf cfg ds = exportRdf ⟨false, []⟩ ds ∧ ∀ t ∈ exportRdf cfg ds, t.p ≠ rdfsSubClassOf :=
+  have hc := writer_keeps_switch false dflt custom cfg h
+  ⟨(export_subclassing_off cfg hc ds).1, (export_subclassing_off cfg hc ds).2.1⟩
 
 /-! ## 3. Permutation invariance -/
 
